@@ -19,6 +19,8 @@ mod cssws_unit;
 mod bmc_unit;
 mod groupdet_unit;
 mod grouplink_unit;
+mod hostpart_unit;
+mod importsign_unit;
 mod diag_unit;
 mod jseval_unit;
 mod posloc_unit;
@@ -93,6 +95,10 @@ fn main() {
         ("JSEVAL", "run") => jseval_unit::run(&input.unwrap()),
         ("DIAG", "search") => diag_unit::search(),
         ("DIAG", "run") => diag_unit::run(&input.unwrap()),
+        ("HOSTPART", "search") => hostpart_unit::search(),
+        ("HOSTPART", "run") => hostpart_unit::run(&input.unwrap()),
+        ("IMPORTSIGN", "search") => importsign_unit::search(),
+        ("IMPORTSIGN", "run") => importsign_unit::run(&input.unwrap()),
         ("TOTAL", "search") => total_unit::search(),
         ("TOTAL", "run") => total_unit::run(&input.unwrap()),
         _ => {
